@@ -11,6 +11,7 @@ package psql
 // clients may only travel as bound parameters.
 
 //@ func (*Graph).DelVertex
+//@   vars g key stmt err
 //@   property C20
 //@   option prelude=sql
 //@   requires nonnil: g != nil && g.db != nil
@@ -18,6 +19,7 @@ package psql
 //@   callsite DB).Exec requires fixed: sqlfixed(arg1)
 
 //@ func (*Graph).DelEdge
+//@   vars g key stmt err
 //@   property C20
 //@   option prelude=sql
 //@   requires nonnil: g != nil && g.db != nil
@@ -25,6 +27,7 @@ package psql
 //@   callsite DB).Exec requires fixed: sqlfixed(arg1)
 
 //@ func (*Graph).GetVertex
+//@   vars g gid load q vrow err vertex
 //@   property C20
 //@   option prelude=sql
 //@   requires nonnil: g != nil && g.db != nil
@@ -32,6 +35,7 @@ package psql
 //@   callsite DB).QueryRowx requires fixed: sqlfixed(arg1)
 
 //@ func (*Graph).GetEdge
+//@   vars g gid load q erow err edge
 //@   property C20
 //@   option prelude=sql
 //@   requires nonnil: g != nil && g.db != nil
@@ -39,6 +43,7 @@ package psql
 //@   callsite DB).QueryRowx requires fixed: sqlfixed(arg1)
 
 //@ func (*Graph).AddVertex
+//@   vars g vertices txn err s stmt v js err
 //@   property C20
 //@   option prelude=sql
 //@   requires nonnil: g != nil && g.db != nil
@@ -46,6 +51,7 @@ package psql
 //@   callsite Tx).Prepare requires fixed: sqlfixed(arg1)
 
 //@ func (*Graph).AddEdge
+//@   vars g edges txn err s stmt e js err
 //@   property C20
 //@   option prelude=sql
 //@   requires nonnil: g != nil && g.db != nil
@@ -53,6 +59,7 @@ package psql
 //@   callsite Tx).Prepare requires fixed: sqlfixed(arg1)
 
 //@ func (*Graph).VertexLabelScan$1
+//@   vars o g ctx label q rows err gid err err
 //@   property C20
 //@   option prelude=sql
 //@   requires nonnil: g != nil && g.db != nil
@@ -60,6 +67,7 @@ package psql
 //@   callsite DB).QueryxContext requires fixed: sqlfixed(arg2)
 
 //@ func (*GraphDB).getGraphInfo
+//@   vars db graph q info err
 //@   property C20
 //@   option prelude=sql
 //@   requires nonnil: db != nil && db.db != nil
@@ -70,6 +78,7 @@ package psql
 // letters; the table names derived from it are embedded as identifiers (KNOWN FINDING
 // callsite fixed:2, the CREATE TABLE statement).
 //@ func (*GraphDB).AddGraph
+//@   vars db graph err sanitizedName vertexTable edgeTable stmt toIndex f err f err
 //@   property C20
 //@   option prelude=sql
 //@   option load=gripql
@@ -77,6 +86,7 @@ package psql
 //@   callsite DB).Exec requires fixed: sqlfixed(arg1)
 
 //@ func (*GraphDB).createIndex
+//@   vars db table field stmt err
 //@   property C20
 //@   option prelude=sql
 //@   requires nonnil: db != nil && db.db != nil
@@ -87,12 +97,14 @@ package psql
 // DeleteGraph: the table names come from the graphs table (written by AddGraph); that
 // they are identifier-safe is the store's representation invariant, assumed here.
 //@ func (*GraphDB).DeleteGraph
+//@   vars db graph info err stmt
 //@   property C20
 //@   option prelude=sql
 //@   requires nonnil: db != nil && db.db != nil
 //@   callsite DB).Exec requires fixed: sqlfixed(arg1)
 
 //@ func (*Graph).GetVertexList$1
+//@   vars o g load ctx q rows err vrow err v err err
 //@   property C20
 //@   option prelude=sql
 //@   requires nonnil: g != nil && g.db != nil
@@ -100,6 +112,7 @@ package psql
 //@   callsite DB).QueryxContext requires fixed: sqlfixed(arg2)
 
 //@ func (*Graph).GetEdgeList$1
+//@   vars o g load ctx q rows err erow err e err err
 //@   property C20
 //@   option prelude=sql
 //@   requires nonnil: g != nil && g.db != nil
@@ -107,6 +120,7 @@ package psql
 //@   callsite DB).QueryxContext requires fixed: sqlfixed(arg2)
 
 //@ func (*Graph).ListVertexLabels
+//@   vars g q rows err labels l err err
 //@   property C20
 //@   option prelude=sql
 //@   requires nonnil: g != nil && g.db != nil
@@ -114,6 +128,7 @@ package psql
 //@   callsite DB).Queryx requires fixed: sqlfixed(arg1)
 
 //@ func (*Graph).ListEdgeLabels
+//@   vars g q rows err labels l err err
 //@   property C20
 //@   option prelude=sql
 //@   requires nonnil: g != nil && g.db != nil
@@ -122,6 +137,7 @@ package psql
 
 // Graph: the handle's table names are the stored ones.
 //@ func (*GraphDB).Graph
+//@   vars db graph info err
 //@   property C20
 //@   option prelude=sql
 //@   option load=gdbi
@@ -138,6 +154,7 @@ package psql
 //@   ensures row: result.1 == nil ==> result.0 != nil && identsafe(result.0.VertexTable) && identsafe(result.0.EdgeTable)
 
 //@ func (*Graph).GetVertexChannel$1
+//@   vars o batches g load batch idBatch signals i ids q rows err chunk vrow err v err err id x ok i
 //@   property C20
 //@   option prelude=sql
 //@   option load=gdbi
@@ -146,6 +163,7 @@ package psql
 //@   callsite DB).Queryx requires fixed: sqlfixed(arg1)
 
 //@ func (*Graph).GetOutChannel$1
+//@   vars o batches g load edgeLabels emitNull batch idBatch batchMap batchMapReturnCount signals i ids q labels i rows err vrow err v err r ri err id count r ri i
 //@   property C20
 //@   option prelude=sql
 //@   option load=gdbi
@@ -154,6 +172,7 @@ package psql
 //@   callsite DB).Queryx requires fixed: sqlfixed(arg1)
 
 //@ func (*Graph).GetInChannel$1
+//@   vars o batches g load edgeLabels emitNull batch idBatch batchMap batchMapReturnCount signals i ids q labels i rows err vrow err v err r ri err id count r ri i
 //@   property C20
 //@   option prelude=sql
 //@   option load=gdbi
@@ -162,6 +181,7 @@ package psql
 //@   callsite DB).Queryx requires fixed: sqlfixed(arg1)
 
 //@ func (*Graph).GetOutEdgeChannel$1
+//@   vars o batches g load edgeLabels emitNull batch idBatch batchMap batchMapReturnCount signals i ids q labels i rows err erow err e err r ri err id count r ri i
 //@   property C20
 //@   option prelude=sql
 //@   option load=gdbi
@@ -170,6 +190,7 @@ package psql
 //@   callsite DB).Queryx requires fixed: sqlfixed(arg1)
 
 //@ func (*Graph).GetInEdgeChannel$1
+//@   vars o batches g load edgeLabels emitNull batch idBatch batchMap batchMapReturnCount signals i ids q labels i rows err erow err e err r ri err id count r ri i
 //@   property C20
 //@   option prelude=sql
 //@   option load=gdbi
